@@ -84,6 +84,10 @@ func (f *fprinter) attr(a Attr, level int) {
 		f.indent(level, "class={ env.K(", num(a.E), ") }")
 	case "class2":
 		f.indent(level, "class={ env.K(1), env.K(2) }")
+	case "cssclass":
+		f.indent(level, "class={ boxed() }")
+	case "scriptcall":
+		f.indent(level, "onclick={ greet(\"x\") }")
 	case "spread":
 		f.indent(level, "{ env.M(", num(a.M), ")... }")
 	case "cond":
